@@ -14,7 +14,7 @@
 #[path = "cbor_tree/mod.rs"]
 mod cbor_tree;
 use pallas_codec::minicbor::{self, Decode, Encode};
-use pallas_codec::utils::{Bytes, Int, KeyValuePairs, Nullable, Set};
+use pallas_codec::utils::{Bytes, Int, KeyValuePairs, MaybeIndefArray, Nullable, Set};
 use pallas_crypto::hash::Hash;
 use pallas_primitives::{alonzo, babbage, byron, conway, ExUnits, Metadatum, RationalNumber, Relay, StakeCredential};
 use pallas_traverse::{probe, Era, MultiEraBlock, MultiEraTx};
@@ -187,11 +187,42 @@ fn big_int(rng: &mut Rng) -> Int {
     };
     Int::try_from(v).expect("in range")
 }
+fn kvp<K, V>(rng: &mut Rng, v: Vec<(K, V)>) -> KeyValuePairs<K, V> where K: Clone, V: Clone { if rng.bool() { KeyValuePairs::Indef(v) } else { KeyValuePairs::Def(v) } }
+fn mia<T>(rng: &mut Rng, v: Vec<T>) -> MaybeIndefArray<T> { if rng.bool() { MaybeIndefArray::Indef(v) } else { MaybeIndefArray::Def(v) } }
+/// PlutusData with definite and indefinite arrays / maps / constructor fields at every depth
+fn pdata(rng: &mut Rng, depth: usize) -> alonzo::PlutusData {
+    use alonzo::PlutusData as P;
+    match rng.below(if depth == 0 { 2 } else { 5 }) {
+        0 => P::BigInt(alonzo::BigInt::Int(Int::from((rng.next() as i64) >> rng.below(64)))),
+        1 => { let n = *rng.pick(&[0usize, 1, 31, 63, 64, 65, 130]); P::BoundedBytes(rng.bytes(n).into()) }
+        2 => { let n = rng.below(3); let v = (0..n).map(|_| pdata(rng, depth - 1)).collect(); P::Array(mia(rng, v)) }
+        3 => { let n = rng.below(3); let v = (0..n).map(|_| (pdata(rng, depth - 1), pdata(rng, depth - 1))).collect(); P::Map(kvp(rng, v)) }
+        _ => { let n = rng.below(3); let v = (0..n).map(|_| pdata(rng, depth - 1)).collect();
+               let (tag, any) = match rng.below(3) { 0 => (121 + rng.below(7), None), 1 => (1280 + rng.below(121), None), _ => (102, Some(rng.edge_u64())) };
+               P::Constr(alonzo::Constr { tag, any_constructor: any, fields: mia(rng, v) }) }
+    }
+}
+/// Metadatum with the Def / Indef distinction erased (what the two framings of one map mean)
+fn norm_md(m: &Metadatum) -> Metadatum {
+    match m {
+        Metadatum::Array(v) => Metadatum::Array(v.iter().map(norm_md).collect()),
+        Metadatum::Map(kv) => Metadatum::Map(KeyValuePairs::Def(kv.iter().map(|(k, v)| (norm_md(k), norm_md(v))).collect())),
+        x => x.clone(),
+    }
+}
+fn norm_aux(a: &alonzo::AuxiliaryData) -> alonzo::AuxiliaryData {
+    let nm = |m: &BTreeMap<u64, Metadatum>| -> BTreeMap<u64, Metadatum> { m.iter().map(|(k, v)| (*k, norm_md(v))).collect() };
+    match a {
+        alonzo::AuxiliaryData::Shelley(m) => alonzo::AuxiliaryData::Shelley(nm(m)),
+        alonzo::AuxiliaryData::ShelleyMa(x) => alonzo::AuxiliaryData::ShelleyMa(alonzo::ShelleyMaAuxiliaryData { transaction_metadata: nm(&x.transaction_metadata), auxiliary_scripts: x.auxiliary_scripts.clone() }),
+        alonzo::AuxiliaryData::PostAlonzo(x) => alonzo::AuxiliaryData::PostAlonzo(alonzo::PostAlonzoAuxiliaryData { metadata: x.metadata.as_ref().map(nm), native_scripts: x.native_scripts.clone(), plutus_scripts: x.plutus_scripts.clone() }),
+    }
+}
 fn metadatum(rng: &mut Rng, depth: usize) -> Metadatum {
     match rng.below(if depth == 0 { 3 } else { 5 }) {
         0 => Metadatum::Int(big_int(rng)), 1 => { let n = rng.below(70) as usize; Metadatum::Bytes(bytes_n(rng, n)) }, 2 => Metadatum::Text(text(rng)),
         3 => Metadatum::Array((0..rng.below(4)).map(|_| metadatum(rng, depth - 1)).collect()),
-        _ => Metadatum::Map(KeyValuePairs::from((0..rng.below(4)).map(|_| (metadatum(rng, depth - 1), metadatum(rng, depth - 1))).collect::<Vec<_>>())),
+        _ => { let n = rng.below(4); let v: Vec<(Metadatum, Metadatum)> = (0..n).map(|_| (metadatum(rng, depth - 1), metadatum(rng, depth - 1))).collect(); Metadatum::Map(kvp(rng, v)) }
     }
 }
 
@@ -315,6 +346,59 @@ fn main() {
             if !done { emit_sample(&format!("tx file not decodable in any era: {}", n)); nskip += 1; }
         }
     }
+    // auxiliary data of the real blocks and txs, re-framed: every map / array of the metadata toggled between the
+    // definite and the indefinite form (one node at a time, and all maps at once). The re-framed bytes must still
+    // decode, to the same metadata up to framing, re-encoding must be a fixpoint, and a tx carrying them must
+    // decode and re-encode to the same bytes.
+    let mut naux = 0u64;
+    for n in &names {
+        let Ok(sx) = std::fs::read_to_string(format!("{}/{}", dir, n)) else { continue };
+        let Ok(bytes) = hex::decode(sx.trim()) else { continue };
+        let Ok(root) = cbor_tree::parse(&bytes) else { continue };
+        let mut auxes: Vec<(Vec<u8>, Option<(Vec<u8>, Vec<u8>, Era)>)> = vec![];
+        if n.ends_with(".block") {
+            let era = match root.at(0).and_then(|x| x.as_uint()) { Some(2) => Era::Shelley, Some(3) => Era::Allegra, Some(4) => Era::Mary, Some(5) => Era::Alonzo, Some(6) => Era::Babbage, Some(7) => Era::Conway, _ => continue };
+            let Some(inner) = root.at(1) else { continue };
+            let Some(entries) = inner.at(3).and_then(|m| m.entries()) else { continue };
+            for (k, v) in entries.iter().take(if thorough { 50 } else { 4 }) {
+                let Some(i) = k.as_uint() else { continue };
+                let ctxt = match (inner.at(1).and_then(|x| x.at(i as usize)), inner.at(2).and_then(|x| x.at(i as usize))) { (Some(b), Some(w)) => Some((b.span(&bytes).to_vec(), w.span(&bytes).to_vec(), era)), _ => None };
+                auxes.push((v.span(&bytes).to_vec(), ctxt));
+            }
+        } else if let Some(a) = root.at(3) { if a.entries().is_some() || a.elems().is_some() || matches!(a.kind, cbor_tree::Kind::Tag(..)) { auxes.push((a.span(&bytes).to_vec(), None)); } }
+        for (aux, ctxt) in auxes {
+            let Ok(v0) = minicbor::decode::<alonzo::AuxiliaryData>(&aux) else { continue };
+            let Ok(aroot) = cbor_tree::parse(&aux) else { continue };
+            let mut mutants = cbor_tree::single_toggles(&aroot, if thorough { 60 } else { 12 });
+            let mut all = aroot.clone();
+            let total = all.count();
+            for k in 0..total { let mut kk = k; if let Some(node) = all.nth_mut(&mut kk) { if let cbor_tree::Kind::Map(w, xs) = &mut node.kind { if !xs.is_empty() || true { *w = None; } } } }
+            mutants.push(all.to_vec());
+            for m in mutants {
+                if m == aux { continue; }
+                naux += 1; ctx.checked += 1;
+                let r = guard(|| minicbor::decode::<alonzo::AuxiliaryData>(&m).map_err(|e| e.to_string()));
+                match r {
+                    Out::Ok(v1) => {
+                        if norm_aux(&v1) != norm_aux(&v0) { ctx.fail("reframe/AuxiliaryData/meaning", format!("{}: original={} reframed={} decode to different metadata", n, hex(&aux), hex(&m))); }
+                        match minicbor::to_vec(&v1).ok().and_then(|e| minicbor::decode::<alonzo::AuxiliaryData>(&e).ok().map(|v2| (e, v2))) {
+                            Some((_, v2)) if v2 == v1 => {}
+                            _ => ctx.fail("reframe/AuxiliaryData/fixpoint", format!("{}: reframed={} does not survive encode/decode", n, hex(&m))),
+                        }
+                    }
+                    Out::Err(e) => ctx.fail("reframe/AuxiliaryData/decode", format!("{}: original={} decodes, its re-framing {} does not: {}", n, hex(&aux), hex(&m), e)),
+                    Out::Panic(p) => ctx.fail("reframe/AuxiliaryData/decode", format!("{}: re-framing {} panics: {}", n, hex(&m), p)),
+                }
+                if let Some((body, wits, era)) = &ctxt {
+                    let mut tx = vec![0x84u8]; tx.extend_from_slice(body); tx.extend_from_slice(wits); tx.push(0xf5); tx.extend_from_slice(&m);
+                    let re = guard(|| MultiEraTx::decode_for_era(*era, &tx).map(|t| t.encode()).map_err(|e| format!("decode: {}", e)));
+                    let re = match re { Out::Ok(v) => Ok(v), Out::Err(e) => Err(e), Out::Panic(p) => Err(format!("panic: {}", p)) };
+                    ctx.iso("tx-reframed-aux", &format!("{:?}", era).to_lowercase(), n, &tx, re);
+                }
+            }
+        }
+    }
+    emit_stat("reframed_aux_inputs", naux);
     // immutable chunks
     let mut nchunk = 0u64;
     match pallas_hardano::storage::immutable::read_blocks(std::path::Path::new(&dir)) {
@@ -394,6 +478,18 @@ fn main() {
     for _ in 0..reps * 6 { let v = relay(&mut rng); ctx.roundtrip("Relay", &v); }
     for _ in 0..reps * 10 { let v = Metadatum::Int(big_int(&mut rng)); ctx.roundtrip("Metadatum/Int", &v); }
     for _ in 0..reps * 10 { let v = metadatum(&mut rng, 3); ctx.roundtrip("Metadatum/nested", &v); }
+    for _ in 0..reps * 4 {
+        // an indefinite map inside an array inside an indefinite map: every KeyValuePairs form at depth >= 2
+        let inner = Metadatum::Map(KeyValuePairs::Indef(vec![(Metadatum::Text(text(&mut rng)), metadatum(&mut rng, 1))]));
+        let v = Metadatum::Map(KeyValuePairs::Indef(vec![(Metadatum::Int(big_int(&mut rng)), Metadatum::Array(vec![inner.clone(), Metadatum::Map(KeyValuePairs::Def(vec![(inner.clone(), inner)]))]))]));
+        ctx.roundtrip("Metadatum/indef-maps", &v);
+        let mut md = BTreeMap::new(); md.insert(rng.edge_u64(), v);
+        ctx.roundtrip("AuxiliaryData/indef-maps", &alonzo::AuxiliaryData::Shelley(md));
+    }
+    for _ in 0..reps * 10 { let v = pdata(&mut rng, 3); ctx.roundtrip("PlutusData", &v); }
+    for _ in 0..reps * 2 {
+        let v = alonzo::Redeemer { tag: alonzo::RedeemerTag::Spend, index: 1, data: pdata(&mut rng, 2), ex_units: ExUnits { mem: 1, steps: 2 } }; ctx.roundtrip("alonzo::Redeemer/indef-data", &v);
+    }
     for _ in 0..reps * 3 {
         let md: BTreeMap<u64, Metadatum> = (0..rng.below(4)).map(|_| (rng.edge_u64(), metadatum(&mut rng, 2))).collect();
         let v = alonzo::AuxiliaryData::Shelley(md.clone()); ctx.roundtrip("AuxiliaryData/Shelley", &v);
